@@ -38,6 +38,7 @@ def run(ctx):
                          "and time (a seeded sample of chunkings in quick, all chunkings of small arrays in thorough) and calibrated / passed to the variance estimators and "
                          "ufunc_per_section under the synchronous scheduler and the threaded scheduler with 1-16 workers; every output compared with the in-memory result at 1e-10 "
                          "relative. variance_stokes_exponential is limited to <= 4 chunks per dimension (it drives LSQR through dask: minutes at 1x1 chunks)")
+    nexp = {}
     ctx.trusted += ["harness vlib/props/c13.py", "dask scheduling, graph optimisation and BLAS threading are runtime behaviour the model cannot exhibit"]
     ctx.assumptions += ["agreement is to 1e-10 relative (floating-point round-off of re-associated sums)"]
     rng = ctx.rng("c13")
@@ -65,6 +66,22 @@ def run(ctx):
                 if ref is not None and val != ref:
                     ctx.violation("reader:load_in_memory-changes-values", f"load_in_memory={lim} chunk limit {cs} gives other values than the in-memory read", rec)
                 ref = ref or val
+        # two lazily read file sets of equal size combined in ONE graph (difference, concatenation) against the in-memory reads
+        da_, db_ = os.path.join(tmp, "pairA"), os.path.join(tmp, "pairB")
+        gen_files.silixa_files(da_, 4, 7, [gen_files.stamp_str(1522201252 + 30 * f_) for f_ in range(4)], 10, 12)
+        gen_files.silixa_files(db_, 4, 7, [gen_files.stamp_str(1522301252 + 30 * f_) for f_ in range(4)], 10, 12, tag_offset=50)
+        ref = None
+        for lim in (True, False):
+            for sched in ("synchronous", "threads"):
+                rec = {"reader": "silixa-pair", "load_in_memory": lim, "scheduler": sched}
+                ctx.case(("reader-pair", str(lim), sched), sample=rec)
+                o = worker("silixa-pair", da_, {"load_in_memory": lim, "other": db_, "scheduler": sched})
+                if "error" in o:
+                    ctx.violation("reader-pair:raised", o["error"], rec)
+                    continue
+                if ref is not None and o != ref:
+                    ctx.violation("reader-pair:lazy-datasets-share-data", "difference / concatenation of two lazily read file sets differs from the in-memory result", rec)
+                ref = ref or o
     finally:
         shutil.rmtree(tmp, ignore_errors=True)
     # (b) chunked computations
@@ -78,8 +95,9 @@ def run(ctx):
         kw = case.kwargs()
         try:
             eager = case.run()
-            v_const = float(variance_stokes_constant(ds["st"], f.sections, ds["userAcquisitionTimeFW"], reshape_residuals=False)[0])
-            v_exp = float(variance_stokes_exponential(ds["st"], f.sections, ds["userAcquisitionTimeFW"], reshape_residuals=False)[0])
+            v_const, r_const = variance_stokes_constant(ds["st"], f.sections, ds["userAcquisitionTimeFW"], reshape_residuals=True)
+            v_exp, r_exp = variance_stokes_exponential(ds["st"], f.sections, ds["userAcquisitionTimeFW"], reshape_residuals=True)
+            v_const, v_exp, r_const, r_exp = float(v_const), float(v_exp), np.asarray(r_const.values), np.asarray(r_exp.values)
             u_eager = np.asarray(ds.dts.ufunc_per_section(sections=f.sections, label="st", temp_err=True, calc_per="all"))
         except Exception as ex:
             ctx.count(f"eager-raised-{type(ex).__name__}")
@@ -102,11 +120,15 @@ def run(ctx):
                     with dask.config.set(**cfg):
                         out = dsc.dts.calibrate_double_ended(**kw) if double else dsc.dts.calibrate_single_ended(**kw)
                         bad = [k for k in names if not close(np.asarray(out[k].values), np.asarray(eager[k].values))]
-                        vc = float(variance_stokes_constant(dsc["st"], f.sections, dsc["userAcquisitionTimeFW"], reshape_residuals=False)[0])
+                        vc, rc_ = variance_stokes_constant(dsc["st"], f.sections, dsc["userAcquisitionTimeFW"], reshape_residuals=True)
+                        vc, rc_ = float(vc), np.asarray(rc_.values)
+                        re_ = r_exp
                         u = np.asarray(dsc.dts.ufunc_per_section(sections=f.sections, label="st", temp_err=True, calc_per="all"))
-                        if nx // cx <= 4 and nt // ct <= 4 and workers in (None, 4):
-                            ve = variance_stokes_exponential(dsc["st"], f.sections, dsc["userAcquisitionTimeFW"], reshape_residuals=False)[0]
-                            ve = float(ve.compute() if hasattr(ve, "compute") else ve)
+                        lim_exp = 1 if ctx.quick else 10   # per case: the estimator drives LSQR through dask and costs 10-60 s per call
+                        if nx // cx <= 4 and nt // ct <= 4 and workers in (None, 4) and nexp.get(p["seed"], 0) < lim_exp:
+                            nexp[p["seed"]] = nexp.get(p["seed"], 0) + 1
+                            ve, re_ = variance_stokes_exponential(dsc["st"], f.sections, dsc["userAcquisitionTimeFW"], reshape_residuals=True)
+                            ve, re_ = float(ve.compute() if hasattr(ve, "compute") else ve), np.asarray(re_.values)
                         else:
                             ve = v_exp
                             ctx.count("exponential-estimator-skipped-for-fine-chunking")
@@ -117,6 +139,9 @@ def run(ctx):
                     ctx.violation(f"chunked-differs:{'de' if double else 'se'}:{bad[0]}", f"{bad} differ from the in-memory result", rec)
                 if abs(vc - v_const) > 1e-8 * abs(v_const) or abs(ve - v_exp) > 1e-6 * abs(v_exp):
                     ctx.violation("chunked-variance-estimate-differs", f"variance estimate on chunked data {vc}, {ve} vs in memory {v_const}, {v_exp}", rec)
+                sc = max(float(np.nanmax(np.abs(r_const))), float(np.nanmax(np.abs(r_exp))), 1e-300)
+                if not (rc_.shape == r_const.shape and np.allclose(rc_, r_const, rtol=0, atol=1e-6 * sc, equal_nan=True)) or not (re_.shape == r_exp.shape and np.allclose(re_, r_exp, rtol=0, atol=1e-5 * sc, equal_nan=True)):
+                    ctx.violation("chunked-residual-field-differs", "the residual array returned for chunked data differs from the in-memory one (placement or values)", rec)
                 if not close(u, u_eager):
                     ctx.violation("chunked-ufunc-differs", "ufunc_per_section on chunked data differs from in memory", rec)
 
